@@ -252,7 +252,7 @@ func DefaultClients() []ClientSpec {
 		{ID: "conf-b", Secret: "secret-of-b", RedirectURIs: []string{"https://app-b.example/cb", "https://app-b.example/cb2"},
 			GrantTypes: AllGrants, ResponseTypes: AllResponseTypes, Scopes: sc, Audience: []string{"https://api.example/b", "https://api.example/shared"}},
 		{ID: "pub-c", Public: true, RedirectURIs: []string{"https://app-c.example/cb"},
-			GrantTypes: []string{"authorization_code", "implicit", "refresh_token", "urn:ietf:params:oauth:grant-type:device_code"},
+			GrantTypes:    []string{"authorization_code", "implicit", "refresh_token", "urn:ietf:params:oauth:grant-type:device_code"},
 			ResponseTypes: AllResponseTypes, Scopes: sc, Audience: []string{"https://api.example/c"}},
 		{ID: "rich-d", Kind: "rich", Secret: "secret-of-d", AuthMethod: "client_secret_basic", RedirectURIs: []string{"https://app-d.example/cb"},
 			GrantTypes: AllGrants, ResponseTypes: AllResponseTypes, Scopes: sc, Audience: []string{"https://api.example/d", "https://api.example/shared"},
